@@ -1290,3 +1290,23 @@ func (s *Session) Abort(reason string) {
 	s.Out.Extra["aborted"] = reason
 	s.Out.End = "ABORTED"
 }
+
+// InBubble runs f inside a synctest bubble (fake clock starting at the
+// bubble epoch, so time.Now() is reproducible). It returns the panic
+// message if f or the bubble panicked.
+func InBubble(t *testing.T, f func()) (msg string) {
+	defer func() {
+		if r := recover(); r != nil {
+			msg = fmt.Sprint(r)
+		}
+	}()
+	synctest.Test(t, func(t *testing.T) {
+		defer func() {
+			if r := recover(); r != nil {
+				msg = fmt.Sprint(r)
+			}
+		}()
+		f()
+	})
+	return msg
+}
